@@ -93,6 +93,8 @@ def configs(draw, tier):
             "lock_falsy": draw(st.booleans()) if lock else False, "susp": susp,
             "length": length, "closes": closes, "cancel": list(cancel) if cancel else None,
             "between": draw(st.booleans()), "close_after_cancel": draw(st.booleans()),
+            # nested: child 0 is not consumed directly but handed, un-advanced, to a second tee with a lock of its own
+            "nested": draw(st.sampled_from([0, 0, 0, 2, 3])) if n <= 3 else 0,
             "choices": draw(st.lists(st.integers(0, 3), max_size=60))}
 
 
@@ -106,6 +108,20 @@ def run_config(case, choices=None, default="rr"):
         lock.falsy = True
     handle = a.tee(src, n, lock=lock) if lock is not None else a.tee(src, n)
     children = list(handle)
+    lock2 = None
+    if case.get("nested"):
+        lock2 = Lock(ctx, "lock2", suspend_uncontended=case["lock_susp"],
+                     release_susp=case.get("lock_release_susp", False)) if case["lock"] else None
+        inner = a.tee(children[0], case["nested"], lock=lock2) if lock2 is not None else \
+            a.tee(children[0], case["nested"])
+        children = list(inner) + children[1:]
+        n = len(children)
+        case = dict(case, closes=(list(case["closes"]) + [None] * n)[:n])
+        # the inner tee's source is a generator-based tee child: like every async generator it is finished by a
+        # cancellation passing through it (see ASSUMPTIONS), so nested configurations are not cancelled
+        case["cancel"] = None
+    locks = [x for x in (lock, lock2) if x is not None]
+    fetching = [None] * n
     got = [[] for _ in range(n)]
     state = ["running"] * n  # running | finished | closed | cancelled
     problems = []
@@ -119,9 +135,13 @@ def run_config(case, choices=None, default="rr"):
             while limit is None or len(got[i]) < limit:
                 try:
                     inside = True
+                    # an item that a sibling already fetched is in this child's buffer: it is available now
+                    fetching[i] = "buffered" if len(got[i]) < src.idx else "source"
                     item = await child.__anext__()
+                    fetching[i] = None
                     inside = False
                 except StopAsyncIteration:
+                    fetching[i] = None
                     state[i] = "finished"
                     return
                 got[i].append(item.idx)
@@ -146,8 +166,15 @@ def run_config(case, choices=None, default="rr"):
             if lock is not None:
                 problems.append(("source-advanced-by-two-consumers-at-once", f"max_active={src.max_active}"))
                 return
-        if lock is not None and lock.waiters:
+        if any(lk.waiters for lk in locks):
             contention[0] = True
+        if task is not None and not task.done and task.name.startswith("c") and not case.get("nested"):
+            i = int(task.name[1:])
+            if fetching[i] == "buffered":
+                problems.append(("buffered-item-not-handed-out-at-once",
+                                 f"child {i} has {src.idx - len(got[i])} fetched item(s) waiting but its __anext__ "
+                                 f"suspended at {getattr(task.pending, 'tag', None)!r}"))
+                return
         expected = list(range(case["length"]))
         for i in range(n):
             if got[i] != expected[:len(got[i])]:
@@ -167,6 +194,11 @@ def run_config(case, choices=None, default="rr"):
                              f"alive={alive} lead={lead} got={[len(g) for g in got]} state={state}"))
             return
         all_done = all(s != "running" for s in state)
+        if case.get("nested"):
+            # only the OUTER children decide when the source is closed
+            # (when exactly the first child became done is not observable from outside while an inner child is
+            # still on its way out, so for nested tees only the outer siblings are required to be done)
+            all_done = all(s != "running" for s in state[case["nested"]:])
         if src.close_calls > 1:
             problems.append(("source-closed-twice", f"{src.close_calls}"))
         elif src.close_calls and not all_done:
@@ -200,9 +232,10 @@ def run_config(case, choices=None, default="rr"):
             if not (front <= src.idx <= front + slack):
                 return sched, [("source-item-fetched-but-never-delivered-or-fetched-twice",
                                 f"served={src.idx} furthest child={front} got={got}")], contention[0]
-            if lock is not None and (lock.locked or lock.waiters or lock.acquired != lock.released or lock.errors):
-                return sched, [("lock-not-free-at-quiescence",
-                                f"locked={lock.locked} acquired={lock.acquired} released={lock.released}")], contention[0]
+            for lk in locks:
+                if lk.locked or lk.waiters or lk.acquired != lk.released or lk.errors:
+                    return sched, [("lock-not-free-at-quiescence",
+                                    f"locked={lk.locked} acquired={lk.acquired} released={lk.released}")], contention[0]
             if not (src.closed or src.exhausted):
                 return sched, [("source-not-closed-after-last-child", f"state={state}")], contention[0]
             if src.alive() > n + 1:
